@@ -7,9 +7,12 @@ VERIF = os.path.dirname(os.path.dirname(os.path.abspath(__file__)))
 
 TECH = "bounded symbolic execution of the compiled code (Kani 0.68 -> CBMC 6.11 -> CaDiCaL SAT), counterexamples replayed natively"
 
-TRUST = ("Trusted: Kani/CBMC/CaDiCaL; the model crates stubs/anyhow (error = zero-sized token, only Ok/Err survives) and stubs/indexmap "
-         "(insertion-ordered vector, linear lookup; validated by running the repository's own tests against them and by replaying every cover witness on the real crates); "
-         "ASCII strings only; dev-profile semantics; the reference oracles in harness/src/refmodel.rs. Nothing is claimed outside the bound of each harness (evidence: coverage.samples[*].bound).")
+TRUST = ("Trusted: Kani 0.68 / CBMC 6.11 / CaDiCaL; lib/gbf_relayout.py (permutation of instruction chains that end in an unconditional GOTO; DESIGN.md 3.2); "
+         "the model crates stubs/anyhow (error = zero-sized token, only Ok/Err survives), stubs/indexmap (insertion-ordered 4-slot store, linear lookup) and stubs/java_string "
+         "(ASCII model under cfg(kani)), validated on every run by replaying every cover witness and every counterexample natively against the real crates; "
+         "for harnesses tagged lib=verif the C model library lib/kani_lib/kani_lib.c (exact small memcpy, allocator with slack; DESIGN.md 4.6); the std hash-map stubs of harness/src/hstubs.rs; "
+         "ASCII strings only; dev-profile semantics; the reference oracles in harness/src/refmodel.rs and in the harness files. "
+         "Nothing is claimed outside the bound of each harness (evidence: coverage.samples[*].bound); UNDECIDED harnesses never count as a pass.")
 
 # property -> (claimed?, level text, design ref, extra note)
 CLAIMS = {
@@ -55,7 +58,7 @@ def main():
         },
         "engines": [
             {"name": "kani-cbmc", "path": "/verif/check", "serves_properties": sorted(claims),
-             "kind_free_text": "python driver -> one `cargo kani` process per harness (harness/src/*.rs compiled against /repo's working tree with model crates patched in) -> CBMC/CaDiCaL; counterexamples and cover witnesses replayed natively by /verif/replay against the real crates"},
+             "kind_free_text": "python driver -> one `cargo kani` process per harness (harness/src/*.rs compiled against /repo's working tree with model crates patched in; shadow Kani bundle that relays out the GOTO binary before CBMC) -> CBMC/CaDiCaL; counterexamples and cover witnesses replayed natively by /verif/replay against the real crates"},
         ],
         "checks": checks,
         "not_applicable": [{"property_id": k, "reason": na[k]} for k in sorted(na)],
